@@ -10,6 +10,7 @@ spec = {
                 "cust":   [n, ...],          # customers per bus
                 "load":   ["1/20", ...]} ],  # constant active load per customer [MW]
   "tie":  {"a": [f, b], "b": [f, b], "open_at_build": bool} | None, # backup line between two buses, disconnectors at both ends
+  feeders[f]["battery"]: {bus index: {"p","q","e","smin","smax","eta","soc_start"}}   # batteries on distribution buses
   "mg":   {"host": [f, b], "mode": "survival|full|limited", "discon": bool, "n": 2, "battery": {...} | None} | None,
   "rep":  "2",                               # default repair time of every line [h]
   "exact": bool                              # build with Fractions (exact-rational runs) or floats
@@ -143,6 +144,11 @@ def build(spec):
             hours = ev.get("hours", list(range(24)))       # rows in any order
             EVPark(f"F{f}EV{k}", Bs[int(k)], num_ev_dist=Table(x=np.array(hours), y=np.array([float(Fraction(v)) for v in ev["table"]])),
                    v2g_flag=ev.get("v2g", True))
+        for k, bt in (fd.get("battery") or {}).items():
+            # a battery on a bus of the distribution network itself (no microgrid mode)
+            Battery(f"F{f}Bat{k}", Bs[int(k)], inj_p_max=N(bt.get("p", "1")), inj_q_max=N(bt.get("q", "1")), E_max=N(bt.get("e", "2")),
+                    SOC_min=N(bt.get("smin", "1/10")), SOC_max=N(bt.get("smax", "1")), n_battery=N(bt.get("eta", "1")),
+                    **({"SOC_start": N(bt["soc_start"])} if bt.get("soc_start") is not None else {}))
         for k, pr in (fd.get("prod") or {}).items():
             from relsad.network.components import Production
             P = Production(f"F{f}P{k}", Bs[int(k)], pmax=N(pr.get("pmax", "10")), qmax=N(pr.get("qmax", "10")))
